@@ -66,7 +66,7 @@ func verifPlan(kind string, chunked bool, burst bool) zzverif.Plan {
 	case "http_big":
 		// an error page larger than any "small error body" assumption
 		return zzverif.Plan{Kind: "ok", Status: 503, Chunked: chunked,
-			Body: `{"error":{"message":"` + strings.Repeat("overloaded ", 2000) + `","type":"server_error"}}`}
+			Body: `{"error":{"message":"` + strings.Repeat("overloaded ", 12000) + `","type":"server_error"}}`}
 	case "http_alt":
 		// an error answer that is not an OpenAI error envelope
 		return zzverif.Plan{Kind: "ok", Status: 404, Chunked: chunked, Body: `{"object":"error","message":"model not found","code":404}`}
